@@ -84,6 +84,21 @@ CLAIMS = {
    note="Wall-clock bounds with fixed slack (3-5.5 s); via= adds one 5 s rung per forwarding level; the OS chooses schedules. Known finding: gevent workers with non-cooperative bodies.",
    technique="TLA+ model of the worker exit ladder with discrete clock model-checked with TLC (incl. mutant); real initiator/worker processes with generated activities and death modes; timed observations validated by TLC against the model's rung deadlines",
    ref="5/C11"),
+ "C05": dict(
+   text='spec/Termination.tla (initiator half): Group.terminate(timeout) = exit() for every member, then one (join+wait, kill) pair per gateway with `timeout` for the term function, SIGKILL afterwards and a bounded 2*timeout wait, against the environment automaton of remote states; TLC checks terminate returns, within 2*timeout (+1 tick), with no child left, for every environment and time-out, and kills the never-kills mutant. Real Groups with 1-3 popen / via / socket gateways whose workers are idle, blocked, busy, sleeping, swallowing or ignoring interrupts, running extra threads, SIGSTOPped or already dead are terminated with several time-outs; elapsed time, len(group) and every descendant process are observed and judged by TLC (spec/TermCases.tla); failing makegateway calls are checked for leaked processes (also in the simulated Group of C20).',
+   note="Wall-clock bound rounds*2*timeout + 3 s; the OS chooses schedules; run as root. Known finding (shared with C20): concurrent id collision leaves a process.",
+   technique="TLA+ model of terminate/kill with discrete clock model-checked with TLC (incl. mutant); real Groups and worker processes with injected signals; timed observations and process-table diffs validated by TLC",
+   ref="5/C05"),
+ "C15": dict(
+   text="spec/Bootstrap.tla models the handshake of the four bootstrap paths against child interpreters with and without execnet, with the set of modules each shipped text imports and the balance of its guarded fallback imports extracted from the current sources by an AST pass at check time; TLC checks that every source-shipping path comes up on a stdlib-only child. Decisive part: children started as `python -I -S` of 3.10-3.13 (execnet verified unimportable) via popen//python=, via= and socket//installvia= (thread and main_thread_only, also with EXECNET_DEBUG set) run the transcript program set; TLC compares each transcript entry by entry with the import-bootstrapped popen worker's, and checks kill/wait through an execnet-less forwarder.",
+   note="ssh/vagrant not runnable here (same exec-over-pipe path as python=); run-time references on undriven paths are only seen through the import projection.",
+   technique="TLA+ handshake model instantiated with an AST projection of the shipped sources, checked with TLC; real execnet-less interpreters 3.10-3.13 on every source bootstrap path; transcripts validated by TLC against the import-bootstrapped baseline",
+   ref="5/C15"),
+ "C16": dict(
+   text="spec/Proxy.tla models ProxyIO + serve_proxy_io (one channel item per master write, forwarder callback into the sub's pipe, one item per complete frame upstream, ChannelFileRead buffering on the master, control channel); TLC checks that the proxied connection is a FIFO byte stream in both directions, control requests are answered in order and kill reaches the sub (42k states). The transcript program set (all serialisable types and sizes up to 4 MB, sub-channels, callbacks, errors, closes, kwargs, stdio floods, two concurrent senders of 150 kB items) runs on {popen, popen//python=, socket//installvia, popen//via} x {thread, main_thread_only, gevent}; TLC compares every transcript with the direct popen one; wait/kill on proxied gateways are observed through the sub's pid.",
+   note="Equivalence on deterministic sequential programs; timing-dependent numbers excluded. Known finding: socket gateways ignore execmodel=.",
+   technique="TLA+ proxy model (refinement to a FIFO byte stream) model-checked with TLC; channel-program transcripts on the full transport x execmodel matrix validated by TLC against the popen baseline",
+   ref="5/C16"),
 }
 
 NOT_YET = {}
